@@ -1,5 +1,5 @@
 (* Property C02 - equality compares in the selected value's own type; bad literals are errors. Numerals are digit lists (most significant first), dval their positional value, canonical = no leading zero; integers are Z throughout, never floats. Statements only (proofs: C02.v, C02b.v, C01.v). *)
-From Coq Require Import List String ZArith NArith Bool. From Bexpr Require Import Base Strconv Ast Univ Eval C01 C02 C02b RoundRat RoundGuards. Import ListNotations. Open Scope Z_scope.
+From Coq Require Import List String Ascii ZArith NArith Bool. From Bexpr Require Import Base Strconv Ast Univ Eval C01 C02 C02b RoundRat RoundGuards FloatLit FloatLit2. Import ListNotations. Open Scope Z_scope.
 
 Theorem parse_int_dec_pos :
   forall ds : list Z, canonical ds -> dval ds 0 < 2 ^ 63 -> parse_int (dstr ds) 0 64 = POk (dval ds 0).
@@ -340,3 +340,58 @@ Theorem hex_guards_are_the_rounding :
   = hex_round mant e2 p emin emaxe.
 Proof. exact RoundGuards.hex_guards_are_the_rounding. Qed.
 Print Assumptions hex_guards_are_the_rounding.
+
+(* End to end for the main family of float literals: digits "." digits (digit lists ip, fp; dstr spells them, dval is their positional value).
+   What the float parser model returns for such a literal, in the width of the selected value, is the bit pattern of a canonical float of
+   that width that is a nearest one to the number the digits denote, dval (ip ++ fp) / 10^|fp|, with an even mantissa on a tie. *)
+Theorem plain_decimal_nearest :
+  forall (ip fp : list Z) (bits p ebits emin emaxe b : Z),
+  (bits = 64 /\ p = 53 /\ ebits = 11 /\ emin = -1074 /\ emaxe = 971) \/ (bits = 32 /\ p = 24 /\ ebits = 8 /\ emin = -149 /\ emaxe = 104) ->
+  ip <> [] -> Forall is_digit ip -> Forall is_digit fp ->
+  let mant := dval (ip ++ fp) 0 in
+  let den := 10 ^ Z.of_nat (List.length fp) in
+  0 < mant ->
+  parse_float (dstr ip ++ String "."%char (dstr fp)) bits = POk b ->
+  exists m e, b = float_bits false (Some (m, e)) p ebits /\
+    (0 <= m < 2 ^ p /\ emin <= e <= emaxe /\ (e = emin \/ 2 ^ (p - 1) <= m)) /\
+    (forall m' e2, 0 <= m' < 2 ^ p -> emin <= e2 -> D mant den m e * pn e2 <= D mant den m' e2 * pn e) /\
+    (2 * D mant den m e = den * pp e -> Z.even m = true).
+Proof. exact FloatLit.plain_decimal_nearest. Qed.
+Print Assumptions plain_decimal_nearest.
+
+Theorem plain_decimal_instance :
+  parse_float "0.1" 64 = POk 4591870180066957722 /\ "0.1"%string = (dstr [0] ++ String "."%char (dstr [1]))%string.
+Proof. exact (conj FloatLit.tenth64 FloatLit.tenth_is_plain). Qed.
+Print Assumptions plain_decimal_instance.
+
+(* The same for EVERY number literal of the bexpr grammar - an optional minus, digits, an optional "." digits (number_text sg ip fo;
+   fo = None: no fraction) - in either width: the bits the float parser model returns are those of a canonical float of the width that is
+   a nearest one to the number the characters denote, ties to even, with the sign of the literal; every spelling of zero reads as +0 / -0. *)
+Theorem number_literal_nearest :
+  forall (sg : bool) (ip : list Z) (fo : option (list Z)) (bits p ebits emin emaxe b : Z),
+  (bits = 64 /\ p = 53 /\ ebits = 11 /\ emin = -1074 /\ emaxe = 971) \/ (bits = 32 /\ p = 24 /\ ebits = 8 /\ emin = -149 /\ emaxe = 104) ->
+  ip <> [] -> Forall is_digit ip -> frac_ok fo ->
+  let mant := dval (ip ++ frac_digits fo) 0 in
+  let den := 10 ^ Z.of_nat (List.length (frac_digits fo)) in
+  0 < mant ->
+  parse_float (number_text sg ip fo) bits = POk b ->
+  exists m e, b = float_bits sg (Some (m, e)) p ebits /\
+    (0 <= m < 2 ^ p /\ emin <= e <= emaxe /\ (e = emin \/ 2 ^ (p - 1) <= m)) /\
+    (forall m' e2, 0 <= m' < 2 ^ p -> emin <= e2 -> D mant den m e * pn e2 <= D mant den m' e2 * pn e) /\
+    (2 * D mant den m e = den * pp e -> Z.even m = true).
+Proof. exact FloatLit2.number_literal_nearest. Qed.
+Print Assumptions number_literal_nearest.
+
+Theorem number_literal_zero :
+  forall (sg : bool) (ip : list Z) (fo : option (list Z)) (bits p ebits emin emaxe : Z),
+  (bits = 64 /\ p = 53 /\ ebits = 11 /\ emin = -1074 /\ emaxe = 971) \/ (bits = 32 /\ p = 24 /\ ebits = 8 /\ emin = -149 /\ emaxe = 104) ->
+  ip <> [] -> Forall is_digit ip -> frac_ok fo -> dval (ip ++ frac_digits fo) 0 = 0 ->
+  parse_float (number_text sg ip fo) bits = POk (float_bits sg (Some (0, emin)) p ebits).
+Proof. exact FloatLit2.number_literal_zero. Qed.
+Print Assumptions number_literal_zero.
+
+Theorem number_literal_instances :
+  (number_text true [1; 5] None = "-15" /\ number_text false [0] (Some [1]) = "0.1" /\ number_text true [1; 2; 3] (Some [4; 5; 6]) = "-123.456")%string /\
+  parse_float "-15" 32 = POk 3245342720.
+Proof. exact (conj FloatLit2.number_text_examples FloatLit2.minus_fifteen32). Qed.
+Print Assumptions number_literal_instances.
